@@ -98,6 +98,10 @@ func genOps(t *tape.Tape) ([]*refcbor.Item, bool) {
 	case 0:
 		return nil, false
 	case 1:
+		if t.Bool(1, 2, "key.ops.order") {
+			// the order of the entries carries no meaning and is the writer's
+			return []*refcbor.Item{refcbor.Int(refcose.KeyOpVerify), refcbor.Int(refcose.KeyOpSign)}, true
+		}
 		return []*refcbor.Item{refcbor.Int(refcose.KeyOpSign), refcbor.Int(refcose.KeyOpVerify)}, true
 	case 2:
 		one := []int64{refcose.KeyOpSign, refcose.KeyOpVerify}[t.Choose(2, "key.ops.one")]
@@ -198,6 +202,27 @@ func genKeySpec(t *tape.Tape) *KeySpec {
 	}
 	if t.Bool(1, 4, "keyspec.extra") {
 		ks.Extra = append(ks.Extra, KV{refcbor.Int(int64(-100 - t.Choose(1000, "keyspec.extra.l"))), genValue(t, 1)})
+	}
+	if t.Bool(1, 12, "keyspec.extra.many") {
+		// keys with many parameters (RSA keys of RFC 8230 carry up to eleven,
+		// application profiles add their own)
+		for i, n := 0, 6+t.Choose(18, "keyspec.extra.many.n"); i < n; i++ {
+			ks.Extra = append(ks.Extra, KV{refcbor.Int(int64(-5000 - i)), refcbor.Bstr(t.Bytes(1+t.Choose(8, "keyspec.extra.many.len"), "keyspec.extra.many.v"))})
+		}
+	}
+	if ks.Crv != nil && t.Bool(1, 20, "keyspec.crv.other") {
+		// a curve that does not belong to the key type (or is not a signature
+		// curve): EC2 with an OKP curve, OKP with an EC2 curve.  Not a valid
+		// key; alg is dropped so that only the curve rule can object
+		other := []int64{refcose.CrvX25519, refcose.CrvX448, refcose.CrvEd25519, refcose.CrvEd448}
+		if ks.Kty == refcose.KtyOKP {
+			other = []int64{refcose.CrvP256, refcose.CrvP384, refcose.CrvP521}
+		}
+		c := other[t.Choose(len(other), "keyspec.crv.other.v")]
+		ks.Crv = &c
+		ks.Alg = nil
+		ks.Pair = nil
+		ks.Desc += " (curve of another key type)"
 	}
 	if t.Bool(1, 8, "keyspec.extra.text") {
 		ks.Extra = append(ks.Extra, KV{refcbor.Tstr("x-" + genText(t, 6)), genValue(t, 1)})
